@@ -33,6 +33,8 @@ func c02RuleAlphabet() []c02RuleVar {
 			out = append(out, c02RuleVar{kind: "pat", pattern: p, signal: sg})
 		}
 	}
+	// the signal is raised in a function that is evaluated as an element of a print list / an argument of a call
+	out = append(out, c02RuleVar{kind: "pat", signal: "next@arg"}, c02RuleVar{kind: "pat", signal: "exit@arg"}, c02RuleVar{kind: "ENDFILE", signal: "exit@arg"})
 	out = append(out, c02RuleVar{kind: "pat", pattern: 3, noBody: true})
 	// a rule that changes the current root / element: roots selected by different selectors, and ENDFILE's view, must not leak into each other
 	out = append(out, c02RuleVar{kind: "pat", signal: "mutate"})
@@ -89,6 +91,10 @@ func c02Rule(v c02RuleVar, id int, withIndex bool) *Rule {
 			Else: &If{Cond: &IsExpr{V("$"), "array"}, Then: Blk(Ex(CallE(Mem(V("$"), "push"), S(fmt.Sprintf("r%d", id))))), Else: Blk(Ex(Asg("=", V("$"), Arr_(V("$"), S("replaced")))))}})
 	}
 	switch v.signal {
+	case "next@arg":
+		body = append(body, Pr(S("arg"), CallE(V("id"), CallE(V("nx")))), Pr(S("never")))
+	case "exit@arg":
+		body = append(body, Ex(Asg("=", V("t"), Arr_(N("1"), CallE(V("ex"))))), Pr(S("never")))
 	case "next":
 		body = append(body, &Next{})
 	case "exit":
@@ -177,7 +183,8 @@ type c02Spec struct {
 
 func c02Build(s c02Spec) *progCase {
 	alpha := c02RuleAlphabet()
-	p := &Program{}
+	p := &Program{Funcs: []*Func{
+		{Name: "nx", Body: Blk(&Next{})}, {Name: "ex", Body: Blk(&Exit{})}, {Name: "id", Params: []string{"v"}, Body: Blk(&Return{X: V("v")})}}}
 	wi := s.Cfg.allArrays()
 	for i, k := range s.Rules {
 		p.Rules = append(p.Rules, c02Rule(alpha[k], i, wi))
@@ -259,7 +266,7 @@ func init() {
 	n := len(alpha)
 	fw.Register(&fw.Prop{
 		ID: "C02",
-		Rule: "rule sequences over 26 rule variants (BEGIN/END/BEGINFILE/ENDFILE with nothing, exit or next; pattern-less, true, false and $>1 pattern rules with nothing, next or exit; a body-less pattern rule, a rule that mutates $), every body printing its rule number, $, $file (and $index when every root is an array); " +
+		Rule: "rule sequences over 29 rule variants (BEGIN/END/BEGINFILE/ENDFILE with nothing, exit or next; pattern-less, true, false and $>1 pattern rules with nothing, next or exit; next / exit raised in a callee inside a print list or an array literal; a body-less pattern rule, a rule that mutates $), every body printing its rule number, $, $file (and $index when every root is an array); " +
 			"(A) all sequences of <= N rules on three rich configurations, (B) 16 fixed rich programs on all 915 configurations (0-2 files x 13 file contents incl. empty, two values and all root shapes x 5 selector lists), (C) all sequences of <= M rules on all configurations; " +
 			"oracle: the schedule model of DESIGN.md 3.13 (exact stdout, outcome and JSON output); a state is the order in which rule kinds fired; non-trivial = same",
 		Plan: func(t fw.Tier) int { return n*n + len(c02Configs()) },
